@@ -19,6 +19,7 @@ LEVEL_TEXT = {
  "C17": _lt("heap", "Seeded exploration under adversarial address placement: mem(current(GC), p) compared with the ledger for every object ever seen after every operation, plus the registry enumerated through a read-only accessor hook (each object once, root flag, count, marks clear).", TRUST, "DESIGN.md section 5 C17"),
  "C19": _lt("containers+heap", "Invariant monitor over every object handed out by the container and heap simulations (true type, allocation class, size) plus fault enumeration of wrong deallocations / in-place growth on stack, static and embedded objects: must raise ResourceError/ValueError and leave the object intact; the arena ledger flags any free of a non-heap pointer or double free.", TRUST + " Default (checked) build only.", "DESIGN.md section 5 C19"),
  "C07": _lt("exc", "Seeded exploration of try/catch/throw program trees executed through the real macros (lexical nesting up to 3 in one function, dynamic nesting through calls, filters of arity 0-3, throws from bodies, library calls and handlers, sequences; also one tree per worker thread under the baton scheduler) compared event by event with a reference interpreter; uncaught programs run in a child process that must fail with a diagnostic.", TRUST, "DESIGN.md section 5 C07 and appendix C"),
+ "C20": _lt("files", "Fault-free exploration plus fault enumeration over a simulated file layer: glibc stdio runs unmodified over fopencookie streams whose backing store, short reads, read/write/seek errors, failing fopen and failing fclose are owned by the simulator; a byte-array model decides round trips, stell/seof and exactly-once close, and guards on every stdio entry point used by File.c prove that a File that is not open never reaches stdio.", TRUST + " glibc is the trusted 'C library view'.", "DESIGN.md section 5 C20"),
 }
 
 NOT_APPLICABLE = {
@@ -32,10 +33,11 @@ NOT_BUILT = {
  "C08": "claimed in DESIGN.md; the dispatch engine for this check is not built yet in this commit",
  "C13": "claimed in DESIGN.md; the threads engine for this check is not built yet in this commit",
  "C18": "claimed in DESIGN.md; the configuration-differential stage is not built yet in this commit",
- "C20": "claimed in DESIGN.md; the files engine for this check is not built yet in this commit",
 }
 
 ENGINES = [
+ {"name": "files", "path": "sim/scen_files.c", "serves_properties": ["C20"],
+  "kind_free_text": "File streams over the in-memory file layer sim/vfs.c (fopencookie) with per-operation fault arming; byte-array reference model"},
  {"name": "exc", "path": "sim/scen_exc.c", "serves_properties": ["C07", "C13"],
   "kind_free_text": "seeded try/catch/throw program trees through the real macros vs a reference interpreter, optionally one tree per Cello worker thread under the baton scheduler"},
  {"name": "heap", "path": "sim/scen_heap.c", "serves_properties": ["C01", "C06", "C17", "C19"],
